@@ -354,6 +354,20 @@ theorem stiffness_row_sum_1d [DecidableEq α] (half : α) (kv : List α) (p nqp 
   unfold gram at ht
   exact ht
 
+/-- **End-to-end symmetry of `bsp_mass_1d` / `bsp_stiffness_1d`** (`du = dv`, any weight function) -/
+theorem symmetric_1d [DecidableEq α] (half : α) (kv : List α) (p nqp : Nat) (xg wg : List α)
+    (D : List (List α)) (wf : Option (List α)) (N : Nat → Nat → α) (hD : D.length = p + 1)
+    (hv : ∀ k < (spanIndices kv).length, ∀ b < p + 1, ∀ t < nqp,
+      get2 D b (nqp * k + t) = N (((spanIndices kv).map (· - p)).getD k 0 + b) (nqp * k + t))
+    (hs : ∀ k < (spanIndices kv).length, ∀ t < nqp, ∀ I,
+      ¬ (((spanIndices kv).map (· - p)).getD k 0 ≤ I ∧ I < ((spanIndices kv).map (· - p)).getD k 0 + (p + 1)) →
+        N I (nqp * k + t) = 0) (I J : Nat) :
+    cooEntry (biform1d half kv p nqp xg wg D D wf).2.2 I J =
+      cooEntry (biform1d half kv p nqp xg wg D D wf).2.2 J I := by
+  rw [biform_1d half kv p nqp xg wg D D wf N N hD hD hv hv hs hs I J,
+    biform_1d half kv p nqp xg wg D D wf N N hD hD hv hv hs hs J I]
+  apply Finset.sum_congr rfl; intro q _; ring
+
 /-- **`1ᵀK = 0`** -/
 theorem stiffness_col_sum_zero (Q n : Nat) (w : Nat → α) (V U : Nat → Nat → α)
     (hV : ∀ q < Q, ∑ I ∈ range n, V I q = 0) (J : Nat) :
@@ -423,6 +437,26 @@ variable {α : Type} [CommRing α] [LinearOrder α] [IsStrictOrderedRing α]
 theorem gram_psd (Q n : Nat) (w : Nat → α) (V : Nat → Nat → α) (x : Nat → α) (hw : ∀ q < Q, 0 ≤ w q) :
     0 ≤ ∑ I ∈ range n, ∑ J ∈ range n, x I * gram Q w V V I J * x J :=
   Pyiga.Galerkin.gram_psd Q n w V x hw
+
+
+/-- **End-to-end `M ⪰ 0` / `K ⪰ 0` for the 1-D model function**: with non-negative quadrature
+weights (after multiplication with the weight function) `xᵀ A x ≥ 0` for every `x`. -/
+theorem psd_1d [DecidableEq α] (half : α) (kv : List α) (p nqp n : Nat) (xg wg : List α)
+    (D : List (List α)) (wf : Option (List α)) (N : Nat → Nat → α) (hD : D.length = p + 1)
+    (hv : ∀ k < (spanIndices kv).length, ∀ b < p + 1, ∀ t < nqp,
+      get2 D b (nqp * k + t) = N (((spanIndices kv).map (· - p)).getD k 0 + b) (nqp * k + t))
+    (hs : ∀ k < (spanIndices kv).length, ∀ t < nqp, ∀ I,
+      ¬ (((spanIndices kv).map (· - p)).getD k 0 ≤ I ∧ I < ((spanIndices kv).map (· - p)).getD k 0 + (p + 1)) →
+        N I (nqp * k + t) = 0)
+    (hw : ∀ q < (spanIndices kv).length * nqp, 0 ≤ (biform1d half kv p nqp xg wg D D wf).2.1.getD q 0)
+    (x : Nat → α) :
+    0 ≤ ∑ I ∈ range n, ∑ J ∈ range n, x I * cooEntry (biform1d half kv p nqp xg wg D D wf).2.2 I J * x J := by
+  have hb := fun I J => biform_1d half kv p nqp xg wg D D wf N N hD hD hv hv hs hs I J
+  simp only [hb]
+  have := Pyiga.Galerkin.gram_psd ((spanIndices kv).length * nqp) n
+    (fun q => (biform1d half kv p nqp xg wg D D wf).2.1.getD q 0) N x hw
+  unfold gram at this
+  exact this
 
 end Ordered
 
